@@ -215,6 +215,17 @@ fn execute_here<S: Scenario>(case: &S::Case) -> Outcome {
             })
         }
     };
+    // details quote inputs; keep them short enough for a pipe buffer and for a human (the replay file has the case)
+    let violation = violation.map(|mut v| {
+        if v.detail.len() > 6000 {
+            let mut cut = 6000;
+            while !v.detail.is_char_boundary(cut) {
+                cut -= 1;
+            }
+            v.detail = format!("{} [... {} more bytes, see the replay file]", &v.detail[..cut], v.detail.len() - cut);
+        }
+        v
+    });
     if let Some(v) = &violation {
         obs.event(&v.signature);
     }
@@ -363,10 +374,24 @@ pub fn exec_isolated<S: Scenario>(env: &Envelope<S::Case>, timeout: Duration) ->
         .stderr(Stdio::piped())
         .spawn()
         .expect("spawn exec child");
-    {
-        let mut stdin = child.stdin.take().unwrap();
-        let _ = stdin.write_all(serde_json::to_string(env).unwrap().as_bytes());
-    }
+    // feed and drain the pipes on their own threads: neither a large envelope nor a chatty child may block
+    let input = serde_json::to_string(env).unwrap();
+    let mut stdin = child.stdin.take().unwrap();
+    let feeder = std::thread::spawn(move || {
+        let _ = stdin.write_all(input.as_bytes());
+    });
+    let mut so = child.stdout.take().unwrap();
+    let mut se = child.stderr.take().unwrap();
+    let out_t = std::thread::spawn(move || {
+        let mut b = Vec::new();
+        let _ = so.read_to_end(&mut b);
+        b
+    });
+    let err_t = std::thread::spawn(move || {
+        let mut b = Vec::new();
+        let _ = se.read_to_end(&mut b);
+        b
+    });
     let spawned = Instant::now();
     let mut start: Option<Instant> = None;
     let mut hung = false;
@@ -392,9 +417,14 @@ pub fn exec_isolated<S: Scenario>(env: &Envelope<S::Case>, timeout: Duration) ->
             Err(_) => break,
         }
     }
-    let out = child.wait_with_output().expect("wait child");
-    let stdout = String::from_utf8_lossy(&out.stdout).to_string();
-    let stderr = String::from_utf8_lossy(&out.stderr).to_string();
+    let status = child.wait().expect("wait child");
+    let _ = feeder.join();
+    let stdout = String::from_utf8_lossy(&out_t.join().unwrap_or_default()).to_string();
+    let stderr = String::from_utf8_lossy(&err_t.join().unwrap_or_default()).to_string();
+    struct Out {
+        status: std::process::ExitStatus,
+    }
+    let out = Out { status };
     let label = probe::read_back(&pfile).map(|x| x.1).unwrap_or_else(|| "-".into());
     let _ = std::fs::remove_file(&pfile);
     if !hung && out.status.success() {
